@@ -111,10 +111,11 @@ func renderMySQL(c Case) myRendered {
 		switch k.K {
 		case "s":
 			var val string
+			scol, search := c.sCol(k)
 			if k.Form == "lit" {
 				val = myLiteral(k.Val, lt, k.Spell)
 			} else {
-				val = param(k.Val, lt, true)
+				val = param(k.Val, lt, search)
 			}
 			op := "="
 			if k.Neg {
@@ -124,9 +125,9 @@ func renderMySQL(c Case) myRendered {
 				}
 			}
 			if k.Flip {
-				return val + " " + op + " " + tq + "s"
+				return val + " " + op + " " + scol
 			}
-			return tq + "s " + op + " " + val
+			return scol + " " + op + " " + val
 		case "plain":
 			col, t := tq+k.Col, pgsess.Text
 			switch k.Col {
@@ -135,7 +136,7 @@ func renderMySQL(c Case) myRendered {
 			case "n":
 				t = pgsess.Int4
 			case "tag":
-				col = "u.tag"
+				col = c.uq() + "tag"
 			}
 			var val string
 			switch {
@@ -147,6 +148,15 @@ func renderMySQL(c Case) myRendered {
 				val = "'" + k.Arg + "'"
 			}
 			return col + " " + k.Op + " " + val
+		case "ss":
+			op := "="
+			if k.Neg {
+				op = "<>"
+			}
+			if k.Flip {
+				return c.uq() + "s " + op + " " + tq + "s"
+			}
+			return tq + "s " + op + " " + c.uq() + "s"
 		case "not":
 			return "NOT (" + cond(k.Kids[0]) + ")"
 		}
@@ -168,16 +178,14 @@ func renderMySQL(c Case) myRendered {
 	}
 	fmt.Fprintf(&b, "SELECT %sid, %ss", idq, tq)
 	if c.Q.Join {
-		b.WriteString(", u.tag")
+		b.WriteString(", " + c.uq() + "tag")
 	}
-	b.WriteString(" FROM t")
-	if c.Q.Alias {
-		b.WriteString(" AS q")
+	b.WriteString(c.fromClause(cond))
+	if c.Q.Join && c.Q.Comma {
+		b.WriteString("(" + cond(c.Q.Where) + ")")
+	} else {
+		b.WriteString(" WHERE " + cond(c.Q.Where))
 	}
-	if c.Q.Join {
-		fmt.Fprintf(&b, " JOIN u ON %sid = u.ref", idq)
-	}
-	b.WriteString(" WHERE " + cond(c.Q.Where))
 	r.SQL = b.String()
 	return r
 }
@@ -196,6 +204,7 @@ type myEnv struct {
 	trow   []pgsess.Value
 	urow   []pgsess.Value // nil when not joined
 	talias string
+	ualias string
 	params [][]byte
 	err    error
 }
@@ -208,7 +217,7 @@ func (e *myEnv) fail(f string, a ...any) myVal {
 }
 
 var tCols = map[string]int{"id": 0, "s": 1, "p": 2, "n": 3}
-var uCols = map[string]int{"id": 0, "ref": 1, "tag": 2}
+var uCols = map[string]int{"id": 0, "ref": 1, "tag": 2, "s": 3}
 
 func (e *myEnv) column(n *sqlparser.ColName) myVal {
 	name := strings.ToLower(n.Name.String())
@@ -223,21 +232,26 @@ func (e *myEnv) column(n *sqlparser.ColName) myVal {
 	}
 	fromU := func() (myVal, bool) {
 		i, ok := uCols[name]
-		if !ok || e.urow == nil {
+		if !ok || e.urow == nil || i >= len(e.urow) {
 			return myVal{}, false
 		}
 		v := e.urow[i]
-		return myVal{null: v.Null, b: v.B, isNum: name != "tag"}, true
+		return myVal{null: v.Null, b: v.B, isNum: name != "tag" && name != "s"}, true
 	}
 	switch {
 	case qual == "":
+		_, inT := tCols[name]
+		_, inU := uCols[name]
+		if inT && inU && e.urow != nil && (name != "s" || len(e.urow) > 3) {
+			return e.fail("column %s is ambiguous", sqlparser.String(n))
+		}
 		if v, ok := fromT(); ok {
 			return v
 		}
 		if v, ok := fromU(); ok {
 			return v
 		}
-	case qual == "u":
+	case qual == e.ualias || (qual == "u" && e.ualias == "u"):
 		if v, ok := fromU(); ok {
 			return v
 		}
@@ -409,15 +423,30 @@ func (e *myEnv) cond(x sqlparser.Expr) tri {
 	return unknown
 }
 
+// myMatch is one row (pair) the emitted statement selects.
+type myMatch struct{ t, u []pgsess.Value }
+
 // runMySQL parses the emitted statement with acra's parser and evaluates it over the stored rows.
 func runMySQL(c Case, sql string, params [][]byte, trows, urows [][]pgsess.Value) ([]int, error) {
+	ms, _, err := runMySQLMatches(c, sql, params, trows, urows)
+	var ids []int
+	for _, m := range ms {
+		id, _ := strconv.Atoi(string(m.t[0].B))
+		ids = append(ids, id)
+	}
+	sort.Ints(ids)
+	return ids, err
+}
+
+// runMySQLMatches returns the selected rows and the statement (for its select list).
+func runMySQLMatches(c Case, sql string, params [][]byte, trows, urows [][]pgsess.Value) ([]myMatch, *sqlparser.Select, error) {
 	stmt, err := sqlparser.New(sqlparser.ModeStrict).Parse(sql)
 	if err != nil {
-		return nil, fmt.Errorf("emitted statement does not parse: %v", err)
+		return nil, nil, fmt.Errorf("emitted statement does not parse: %v", err)
 	}
 	sel, ok := stmt.(*sqlparser.Select)
 	if !ok {
-		return nil, fmt.Errorf("emitted statement is a %T", stmt)
+		return nil, nil, fmt.Errorf("emitted statement is a %T", stmt)
 	}
 	// SELECT ... FROM t WHERE id IN (SELECT id FROM t ... WHERE cond): the rows of t whose id the inner SELECT yields
 	if sel.Where != nil {
@@ -425,18 +454,31 @@ func runMySQL(c Case, sql string, params [][]byte, trows, urows [][]pgsess.Value
 			if sub, ok := in.Right.(*sqlparser.Subquery); ok {
 				inner, ok := sub.Select.(*sqlparser.Select)
 				if col, isCol := in.Left.(*sqlparser.ColName); !ok || !isCol || !strings.EqualFold(col.Name.String(), "id") {
-					return nil, fmt.Errorf("unexpected sub-query shape: %s", sqlparser.String(sel.Where))
+					return nil, sel, fmt.Errorf("unexpected sub-query shape: %s", sqlparser.String(sel.Where))
 				}
-				return runMySQLSelect(c, inner, params, trows, urows)
+				ms, err := runMySQLSelect(c, inner, params, trows, urows)
+				inSet := map[string]bool{}
+				for _, m := range ms {
+					inSet[string(m.t[0].B)] = true
+				}
+				var out []myMatch
+				for _, tr := range trows {
+					if inSet[string(tr[0].B)] {
+						out = append(out, myMatch{t: tr})
+					}
+				}
+				return out, sel, err
 			}
 		}
 	}
-	return runMySQLSelect(c, sel, params, trows, urows)
+	ms, err := runMySQLSelect(c, sel, params, trows, urows)
+	return ms, sel, err
 }
 
-func runMySQLSelect(c Case, sel *sqlparser.Select, params [][]byte, trows, urows [][]pgsess.Value) ([]int, error) {
-	env := &myEnv{c: c, talias: "t", params: params}
+func runMySQLSelect(c Case, sel *sqlparser.Select, params [][]byte, trows, urows [][]pgsess.Value) ([]myMatch, error) {
+	env := &myEnv{c: c, talias: "t", ualias: "u", params: params}
 	var on sqlparser.Expr
+	withU := false
 	var scan func(te sqlparser.TableExpr) error
 	scan = func(te sqlparser.TableExpr) error {
 		switch n := te.(type) {
@@ -447,6 +489,12 @@ func runMySQLSelect(c Case, sel *sqlparser.Select, params [][]byte, trows, urows
 			}
 			if strings.EqualFold(tn.Name.String(), "t") && !n.As.IsEmpty() {
 				env.talias = strings.ToLower(n.As.String())
+			}
+			if strings.EqualFold(tn.Name.String(), "u") {
+				withU = true
+				if !n.As.IsEmpty() {
+					env.ualias = strings.ToLower(n.As.String())
+				}
 			}
 		case *sqlparser.JoinTableExpr:
 			on = n.Condition.On
@@ -464,19 +512,18 @@ func runMySQLSelect(c Case, sel *sqlparser.Select, params [][]byte, trows, urows
 			return nil, err
 		}
 	}
-	var ids []int
+	var out []myMatch
 	emit := func(tr, ur []pgsess.Value) {
 		env.trow, env.urow = tr, ur
 		if on != nil && env.cond(on) != yes {
 			return
 		}
 		if sel.Where == nil || env.cond(sel.Where.Expr) == yes {
-			id, _ := strconv.Atoi(string(tr[0].B))
-			ids = append(ids, id)
+			out = append(out, myMatch{t: tr, u: ur})
 		}
 	}
 	for _, tr := range trows {
-		if on == nil {
+		if !withU {
 			emit(tr, nil)
 			continue
 		}
@@ -484,14 +531,18 @@ func runMySQLSelect(c Case, sel *sqlparser.Select, params [][]byte, trows, urows
 			emit(tr, ur)
 		}
 	}
-	sort.Ints(ids)
-	return ids, env.err
+	return out, env.err
 }
 
 // CheckRewriteMySQL drives the MySQL HashQuery observer and evaluates what it emits literally.
 func CheckRewriteMySQL(c Case) (vs hx.Vs) {
 	sqlparser.SetDefaultDialect(mydialect.NewMySQLDialect())
 	w := fix.TheWorld()
+	c, rerr := resolve(c)
+	if rerr != nil {
+		vs.Add("harness:resolve", "%v", rerr)
+		return
+	}
 	tabs := tables(c)
 	schema, err := config.MapTableSchemaStoreFromConfig([]byte(pgprog.SchemaYAML(tabs)), config.UseMySQL)
 	if err != nil {
@@ -618,11 +669,12 @@ func CheckRewriteMySQL(c Case) (vs hx.Vs) {
 
 func TestRewriteMySQL(t *testing.T) {
 	R.Rule("TestRewriteMySQL", "as TestRewritePG with the MySQL dialect: literals as '..', \"..\", X'..', 0x.., decimal; placeholders ?; HashQuery.OnQuery on the statement object, OnBind on the same (mutated) syntax tree as the proxy does; the emitted text is re-parsed with acra's sqlparser and evaluated by a small literal evaluator (AND/OR/NOT in three-valued logic, substr/convert, hex literals, join on a plain column) over the values the write side stored. Same oracle and non-trivial rule")
-	hx.Checks(100, 6000)
+	hx.Checks(500, 6000)
 	rapid.Check(t, func(rt *rapid.T) {
 		c := genCase(rt, genOpts{mysql: true})
 		vs := CheckRewriteMySQL(c)
-		R.Seen("TestRewriteMySQL", c, nontrivial(c), classesOf(c, "mysql")...)
+		rc, _ := resolve(c)
+		R.Seen("TestRewriteMySQL", c, nontrivial(rc), classesOf(rc, "mysql")...)
 		R.Report(rt, "TestRewriteMySQL", c, vs)
 	})
 }
